@@ -63,13 +63,17 @@ def units(tier):
     us.append(('guderley', {'gud': True}))
     us.append(('sedov', {'sedov': True}))
     us.append(('sdrz', {'sdrz': True}))
+    us += [('ep_piston/%s' % m_, {'piston': m_, 'tier': tier}) for m_ in ('hypo', 'hyperIfin', 'hyperFin')]
     us.append(('rmtv', {'rmtv': True}))
     us += [('radshock/' + c_, {'radshock': c_}) for c_ in ('ED_Solver', 'nED_Solver', 'Sn_Solver', 'ie_Solver')]
     us.append(('ehep', {'ehep': True}))
     return us
 
 
-def run_unit(name, key=None, case=None, tier='quick', riemann=False, pat=None, fam=None, ehep=False, gud=False, sedov=False, sdrz=False, radshock=None, rmtv=False):
+def run_unit(name, key=None, case=None, tier='quick', riemann=False, pat=None, fam=None, ehep=False, gud=False, sedov=False, sdrz=False, radshock=None, rmtv=False, piston=None):
+    if piston:
+        from props import piston_eos_kit
+        return piston_eos_kit.unit({'model': piston}, tier)
     if rmtv:
         from props import rmtv_kit
         return rmtv_kit.unit_eos()
